@@ -6,10 +6,11 @@ CONSTANTS
   Cols <- ColsAll
   ClassKinds <- KindsTabQ
   ClassX <- XTabQ
+  ClassXS <- XSTabQ
   ClassT <- TTabQ
   ClassM <- MTabQ
   LowerOf <- LowerTab
-  QNums <- QNumsOne
+  QNums <- QNumsTwo
   QWords <- QWordsTwo
   MaxEvents = 3
   MaxBatch = 2
